@@ -59,6 +59,7 @@ pub struct Failure {
 
 pub struct Ctx {
     pub tier: Tier,
+    pub pid: String,
     pub counters: BTreeMap<String, u64>,
     pub failures: Vec<Failure>,
     pub cur_op: usize,
@@ -66,9 +67,10 @@ pub struct Ctx {
     pub oracle_checks: u64,
 }
 impl Ctx {
-    pub fn new(tier: Tier) -> Self {
+    pub fn new(tier: Tier, pid: &str) -> Self {
         Ctx {
             tier,
+            pid: pid.to_string(),
             counters: BTreeMap::new(),
             failures: Vec::new(),
             cur_op: 0,
@@ -489,13 +491,17 @@ impl<C: ColNum> DrawTarget for R2<C> {
     }
 }
 
-/// The property modules plug in here.
-pub trait Prop {
-    fn id(&self) -> &'static str;
-    /// Produce op lines (corpus first, exhaustive small scopes, then random cases).
-    fn generate(&self, tier: Tier, rng: &mut Rng, emit: &mut dyn FnMut(String));
+/// A harness module covers one topic (`rect`, `raw`, `circle`, ...): all its stream names start
+/// with `<name>.`. A property check runs one or more modules (table in main.rs). Oracle failure
+/// classes may be prefixed `Cxx:`; such a failure counts only for the check of property Cxx
+/// (unprefixed classes count for every property that runs the module).
+pub trait Module {
+    fn name(&self) -> &'static str;
+    /// Produce op lines for the check of property `pid` (exhaustive small scopes first, then
+    /// seeded random cases). Deterministic in (pid, tier, rng).
+    fn generate(&self, pid: &str, tier: Tier, rng: &mut Rng, emit: &mut dyn FnMut(String));
     /// Run one op on the real library: returns the canonical result line; oracle failures and
-    /// distribution counters go into `ctx`.
+    /// distribution counters go into `ctx` (`ctx.pid` is the property being checked).
     fn execute(&self, op: &str, ctx: &mut Ctx) -> String;
     /// Rule by which `distinct_nontrivial` is counted (for the evidence).
     fn rule(&self) -> &'static str;
